@@ -76,7 +76,7 @@ def parse_case(extra, csi, r, c, trail, errs=0, cb=True, enc="latin-1"):
 
 
 def replay(case):
-    d = parse_case(**case)
+    d = after_render_case(case) if "steps" in case else parse_case(**case)
     return (d == ""), d
 
 
@@ -209,8 +209,74 @@ def bounded_diff(check, tier):
     s.done()
 
 
+def after_render_case(case):
+    """real renders on the reference terminal (C07's rig), the cursor moved by the application's own output in between, then
+    get_cursor_vertical_diff: the change of top_usable_row plus the returned value equals the movement of the TERMINAL's cursor since the
+    render (read off the terminal, not off the window's bookkeeping).  -> '' or description"""
+    from curtsies.window import CursorAwareWindow
+    from props import C07
+    H, W = case["H"], case["W"]
+    term = C07.Terminal(H, W)
+    term.feed(C07.pre_stream(dict(W=W, pre=case["pre"], up=0, col=0)))
+    inp = C07._In(term, C07._slave_fd())
+    w = CursorAwareWindow(out_stream=C07._Out(term.feed), in_stream=inp, keep_last_line=False, hide_cursor=case.get("hide", True))
+    C07._blessed_sized(w.t)
+    w.t._hw = (H, W)
+    try:
+        w.__enter__()
+    except Exception as e:      # noqa: BLE001
+        return f"entering the context raised {type(e).__name__}: {e}"
+    try:
+        for i, (nrows, cur, move) in enumerate(case["steps"]):
+            rows = [chr(97 + (i + k) % 26) * (1 + k % W) for k in range(nrows)]
+            try:
+                w.render_to_terminal(rows, (min(cur, max(nrows - 1, 0)), 0))
+            except Exception as e:      # noqa: BLE001
+                return f"step {i}: render of {nrows} rows raised {type(e).__name__}: {e}"
+            r0 = term.cursor[0]
+            term.feed(move)             # what the application (or the shell behind it) prints / how it moves the cursor afterwards
+            r1 = term.cursor[0]
+            top0 = w.top_usable_row
+            try:
+                ret = w.get_cursor_vertical_diff()
+            except Exception as e:      # noqa: BLE001
+                return f"step {i}: get_cursor_vertical_diff raised {type(e).__name__}: {e}"
+            if (w.top_usable_row - top0) + ret != r1 - r0:
+                return (f"step {i} at {H}x{W}: after rendering {nrows} rows (cursor_pos row {cur}) the terminal's cursor was on row {r0}; it then moved to row "
+                        f"{r1} (movement {r1 - r0:+d}); get_cursor_vertical_diff changed top_usable_row {top0} -> {w.top_usable_row} and returned {ret}: "
+                        f"accounted {(w.top_usable_row - top0) + ret:+d}")
+    finally:
+        try:
+            w.__exit__(None, None, None)
+        except Exception:      # noqa: BLE001
+            pass
+    return ""
+
+
+def after_render(check, tier):
+    s = Suite(check, "C18.after_render", "get_cursor_vertical_diff after REAL renders on the reference terminal: arrays that fit / overflow by 1..H+2 rows "
+              "(the cursor's own row scrolled off the top included) x cursor_pos row first / middle / last x the cursor then moved down 0-2 rows "
+              "or up 1 by the application's output x 1-2 rounds, terminals 2..4 rows with 0 / 2 lines of earlier output: top_usable_row change "
+              "+ returned value == movement of the terminal's cursor", bound="<= 2 rounds")
+    moves = ["", "\n", "\n\n", "\x1b[1A"]
+    for H in (2, 3, 4):
+        for pre in (0, 2):
+            for n1 in (1, H, H + 1, H + 3, 2 * H + 2):
+                for cur in (0, n1 // 2, n1 - 1):
+                    for mv in moves:
+                        for second in (None, (1, 0, ""), (H + 2, 0, "\n")):
+                            steps = [[n1, cur, mv]] + ([list(second)] if second else [])
+                            case = dict(H=H, W=3, pre=pre, steps=steps)
+                            s.case((H, pre, n1, cur, mv, second), sample=case)
+                            d = after_render_case(case)
+                            if d:
+                                s.fail("C18.diff.after_render", case, d, replay={"kind": "suite", "module": "props.C18", "case": case})
+    s.done()
+
+
 def run(check, tier, seed):
     for c in CONTRACTS:
         verify(c, tier, check)
     bounded_parse(check, tier)
     bounded_diff(check, tier)
+    after_render(check, tier)
